@@ -42,12 +42,19 @@ of non-negative integers; arithmetic does not overflow `int` (the no-overflow
 and argument-validation obligations of these kernels are C19's class -- the
 kernels validate nothing, DESIGN 5 D7 -- and are not claimed here).
 
-TRUSTED: the reference-BLAS meaning of dcopy_/dscal_/ddot_ on the strided
-views they are given (contracts/c/extern_blas.py); floats as reals.
+TRUSTED: the reference-BLAS meaning of dcopy_/dscal_/ddot_/dlacpy_ on the
+strided views they are given (contracts/c/extern_blas.py, extern_lapack.py);
+floats as reals.
 
-NOT decided: scale, scale2, sprod, sinv, max_step, pack2, sgemv, ssqr, jdot,
-jnrm2, snrm2 (value identities through data-dependent arithmetic), and the
-pure-Python fall-backs in misc.py (dead code while use_C = True).
+pack2 (added later): the in-place packing of every column of a matrix through
+a calloc'ed work block; families rows-to-work / scale-work-rows /
+work-to-packed with the leading dimension of the work block tied to the ghost
+running maximum MX(k) = max(0, s_0, ..., s_{k-1}).
+
+NOT decided here: scale, scale2, sprod, sinv, max_step (value identities
+through data-dependent arithmetic); the Python kernels sgemv, ssqr, jdot,
+jnrm2, snrm2 are in contracts/py/misc_kernels_spec.py; the pure-Python
+fall-backs in misc.py are dead code while use_C = True.
 """
 import itertools
 import z3
@@ -60,6 +67,7 @@ I = z3.IntSort()
 Qf = z3.Function('Q', I, I)
 SQf = z3.Function('SQ', I, I)
 TPf = z3.Function('TP', I, I)
+MXf = z3.Function('MX', I, I)      # MX(k) = max(0, s_0, ..., s_{k-1})
 SQRT2 = z3.Function('sqrt', z3.RealSort(), z3.RealSort())(z3.RealVal(2))
 # the engine does not interpret floating-point arithmetic: a / b is the term
 # fdiv(a, b) etc., so the factors below are compared as the code computes them
@@ -110,7 +118,8 @@ def unfold(ex, t):
     done[key] = t          # keeps the term alive
     sk = sf(t)
     ex.axioms.extend([
-        Qf(0) == 0, SQf(0) == 0, TPf(0) == 0,
+        Qf(0) == 0, SQf(0) == 0, TPf(0) == 0, MXf(0) == 0,
+        MXf(t + 1) == z3.If(sk > MXf(t), sk, MXf(t)),
         Qf(t + 1) == Qf(t) + qf(t),
         SQf(t + 1) == SQf(t) + sk * sk,
         2 * (TPf(t + 1) - TPf(t)) == sk * (sk + 1),
@@ -170,7 +179,20 @@ def match(C, fam, rec_ints, rec_scalars, rec_ptrs, w):
     want = fam.args(C, w)
     conj = [fam.dom(C, w)]
     for k, v in want.items():
-        if isinstance(v, tuple):
+        if isinstance(v, tuple) and v[0] == '@work':
+            # the kernel's own work space (one calloc'ed block)
+            p = rec_ptrs.get(k)
+            if not isinstance(p, PtrV) or p.region is None or \
+                    p.region.kind != 'malloc':
+                return z3.BoolVal(False)
+            conj.append(p.off == 8 * v[1])
+        elif isinstance(v, tuple) and v[0] == '@string':
+            p = rec_ptrs.get(k)
+            if not isinstance(p, PtrV) or p.region is None or \
+                    p.region.kind != 'string' or \
+                    getattr(p.region, 'text', None) != v[1]:
+                return z3.BoolVal(False)
+        elif isinstance(v, tuple):
             p = rec_ptrs.get(k)
             if not isinstance(p, PtrV) or p.region is not C.buf(v[0]):
                 return z3.BoolVal(False)
@@ -577,6 +599,67 @@ def spec_pack():
                       2: (lambda C, e: 0, lambda C, e: sf(iv(e, 'i')))}}
 
 
+def spec_pack2():
+    """pack2(x, dims, mnl): in-place version of pack for a matrix x with xc
+    columns (leading dimension xr): for every 's' block i and column k of
+    the block, the part of row-block k from the diagonal down (len = n - k
+    rows, all xc columns) is copied to the work space, its rows 1..len-1 are
+    scaled by sqrt(2), and the result is copied to the packed position"""
+    nlq = lambda C: C.arg('mnl') + L + Qf(NQ)
+    U = lambda C, k: nlq(C) + SQf(k)
+    P = lambda C, k: nlq(C) + TPf(k)
+    xr = lambda C: C.parsed['x'].nrows
+    xc = lambda C: C.parsed['x'].ncols
+    dom = lambda C, w: z3.And(w[0] >= 0, w[0] < NS, w[1] >= 0,
+                              w[1] < sf(w[0]))
+    fams = [
+        Fam('rows-to-work', 'dlacpy_', 3, 2, dom,
+            lambda C, w: {'uplo': z3.IntVal(ord(' ')), 'm': sf(w[0]) - w[1],
+                          'n': xc(C),
+                          'A': ('x', U(C, w[0]) + w[1] * (sf(w[0]) + 1)),
+                          'lda': xr(C), 'B': ('@work', z3.IntVal(0)),
+                          'ldb': MXf(NS)},
+            'wrk[t, c] := x[U_i + k (n+1) + t, c], t < n-k, all columns c '
+            '(column k of block i from the diagonal down)'),
+        Fam('scale-work-rows', 'dscal_', 4, 3,
+            lambda C, w: z3.And(dom(C, w), w[2] >= 1,
+                                w[2] < sf(w[0]) - w[1]),
+            lambda C, w: {'n': xc(C), 'alpha': SQRT2,
+                          'x': ('@work', w[2]), 'incx': MXf(NS)},
+            'wrk[j, c] *= sqrt(2), 1 <= j < n-k (the entries below the '
+            'diagonal)'),
+        Fam('work-to-packed', 'dlacpy_', 3, 2, dom,
+            lambda C, w: {'uplo': z3.IntVal(ord(' ')), 'm': sf(w[0]) - w[1],
+                          'n': xc(C), 'A': ('@work', z3.IntVal(0)),
+                          'lda': MXf(NS),
+                          'B': ('x', P(C, w[0]) + T(C, sf(w[0]), w[1])),
+                          'ldb': xr(C)},
+            'x[P_i + T(n,k) + t, c] := wrk[t, c], t < n-k (packed position '
+            'of column k of block i)')]
+    return {'families': fams,
+            'loops': {
+                0: q_loop('nlq', lambda C: C.arg('mnl')),
+                1: lambda C, e, U_: [
+                    ('0 <= i <= len(s)', z3.And(U_(iv(e, 'i')) >= 0,
+                                                iv(e, 'i') <= NS)),
+                    ('maxn = max(0, s_0, ..., s_{i-1})',
+                     iv(e, 'maxn') == MXf(iv(e, 'i')))],
+                2: s_loop([('iu', U, 'iu = nlq + SQ(i)'),
+                           ('ip', P, 'ip = nlq + TP(i)'),
+                           ('nlq', lambda C, c: nlq(C),
+                            'nlq = mnl + l + sum(q)'),
+                           ('maxn', lambda C, c: MXf(NS),
+                            'maxn = max(0, s_0, ...)')]),
+                3: col_loop('ip', P, 'ip = P_i + T(n,k)'),
+                4: lambda C, e, U_: [
+                    ('1 <= j', iv(e, 'j') >= 1),
+                    ('len = n - k', iv(e, 'len') == iv(e, 'n') - iv(e, 'k'))]},
+            'space': {2: (lambda C, e: 0, lambda C, e: NS),
+                      3: (lambda C, e: 0, lambda C, e: sf(iv(e, 'i'))),
+                      4: (lambda C, e: 1,
+                          lambda C, e: sf(iv(e, 'i')) - iv(e, 'k'))}}
+
+
 def spec_unpack():
     m = lambda C: C.arg('mnl') + L + Qf(NQ)
     P = lambda C, k: C.arg('offsetx') + m(C) + TPf(k)
@@ -859,6 +942,7 @@ def lemmas():
 
 KERNELS = {'trisc': spec_trisc(True), 'triusc': spec_trisc(False),
            'pack': spec_pack(), 'unpack': spec_unpack(),
+           'pack2': spec_pack2(),
            'symm': spec_symm(), 'sdot': spec_sdot()}
 
 FUNCS = {}
@@ -866,3 +950,9 @@ for _f in KERNELS:
     FUNCS[_f] = {'init': driver.pycfunction_init, 'post': post_kernel,
                  'config': {'loop_invariants': loop_invariants_for(_f)},
                  'externs': EXTERNS}
+# pack2: only the obligations of C08 are discharged in this run (its
+# arithmetic-overflow and footprint obligations, with products of three
+# symbolic sizes, are not claimed anywhere and cost minutes of solver time)
+FUNCS['pack2']['config']['only_kinds'] = (
+    'kernel-definition', 'loop-invariant', 'iteration-space', 'accumulate',
+    'covered')
